@@ -58,11 +58,12 @@ package bytes
 // header byte p of segment s
 //@ spec func (bks *Blocks) hb(s int, p int) byte = sbyte(bks.bts, s * bks.ss() + p)
 // representation invariant: valid geometry inside the store; free hint: every header byte before freeIdx is full
-//@ pred (bks *Blocks) wf() = bks != nil && bufOK(bks.bts) && 1 <= bks.blkSize && bks.blkSize <= 1<<27 && bks.blksInSegm == 8 * bks.blkSize &&
+//@ pred (bks *Blocks) geom() = bks != nil && bufOK(bks.bts) && 1 <= bks.blkSize && bks.blkSize <= 1<<27 && bks.blksInSegm == 8 * bks.blkSize &&
 //@      1 <= bks.segments && bks.segments * bks.ss() <= bks.bts.ssize && 0 <= bks.freeIdx && bks.freeIdx <= bks.segments * bks.ss() &&
-//@      (bks.freeIdx < bks.segments * bks.ss() ==> bks.freeIdx % bks.ss() < bks.blkSize) &&
-//@      forall(s, int, 0 <= s && s < bks.segments ==> 0 <= s * bks.ss() && s * bks.ss() + bks.ss() <= bks.bts.ssize && s * (bks.blksInSegm + 1) * bks.blkSize == s * bks.ss()) &&
-//@      forall(s, int, forall(p, int, 0 <= s && s < bks.segments && 0 <= p && p < bks.blkSize && s * bks.ss() + p < bks.freeIdx ==> bks.hb(s, p) == 255))
+//@      forall(s, int, 0 <= s && s < bks.segments ==> 0 <= s * bks.ss() && s * bks.ss() + bks.ss() <= bks.bts.ssize && s * (bks.blksInSegm + 1) * bks.blkSize == s * bks.ss())
+// free hint: every header byte before freeIdx is full
+//@ pred (bks *Blocks) hint() = forall(x, 0, bks.freeIdx, x % bks.ss() < bks.blkSize ==> sbyte(bks.bts, x) == 255)
+//@ pred (bks *Blocks) wf() = bks.geom() && bks.hint() && (bks.freeIdx < bks.segments * bks.ss() ==> bks.freeIdx % bks.ss() < bks.blkSize)
 
 //@ func GetBlocksInSegment(blkSize int) int
 //@   props C17
@@ -120,8 +121,8 @@ package bytes
 //@   ensures 0 <= idx && idx < bks.segments * bks.blksInSegm ==> r0 == (idx / bks.blksInSegm) * bks.ss() && r1 == (idx % bks.blksInSegm) / 8 && r2 == (idx % bks.blksInSegm) % 8 && 0 <= r1 && r1 < bks.blkSize && 0 <= r0 && r0 + bks.blkSize <= bks.bts.ssize
 
 // every store byte other than header byte p of segment s is as before
-//@ pred (bks *Blocks) onlyHdrChanged(s int, p int) = forall(x, int, 0 <= x && x < bks.bts.ssize && x != s * bks.ss() + p ==> sbyte(bks.bts, x) == old(sbyte(bks.bts, x)))
-//@ pred (bks *Blocks) storeKept() = forall(x, int, 0 <= x && x < bks.bts.ssize ==> sbyte(bks.bts, x) == old(sbyte(bks.bts, x)))
+//@ pred (bks *Blocks) onlyHdrChanged(s int, p int) = forall(x, 0, bks.bts.ssize, x != s * bks.ss() + p ==> sbyte(bks.bts, x) == old(sbyte(bks.bts, x)))
+//@ pred (bks *Blocks) storeKept() = forall(x, 0, bks.bts.ssize, sbyte(bks.bts, x) == old(sbyte(bks.bts, x)))
 //@ pred (bks *Blocks) geomKept() = bks.blkSize == old(bks.blkSize) && bks.blksInSegm == old(bks.blksInSegm) && bks.segments == old(bks.segments) && bks.bts == old(bks.bts) && bks.bts.sarr == old(bks.bts.sarr) && bks.bts.soff == old(bks.bts.soff) && bks.bts.ssize == old(bks.bts.ssize)
 
 // FreeBlock(idx): s = idx/B, p = (idx%B)/8, j = (idx%B)%8 is the header bit of block idx
@@ -133,3 +134,68 @@ package bytes
 //@   ensures !(0 <= idx && idx < bks.segments * bks.blksInSegm) ==> errIs(r0, errors.ErrInvalid) && bks.storeKept() && bks.available == old(bks.available)
 //@   ensures 0 <= idx && idx < bks.segments * bks.blksInSegm && !old(bitset(bks.hb(idx / bks.blksInSegm, (idx % bks.blksInSegm) / 8), (idx % bks.blksInSegm) % 8)) ==> errIs(r0, errors.ErrNotExist) && bks.storeKept() && bks.available == old(bks.available)
 //@   ensures 0 <= idx && idx < bks.segments * bks.blksInSegm && old(bitset(bks.hb(idx / bks.blksInSegm, (idx % bks.blksInSegm) / 8), (idx % bks.blksInSegm) % 8)) ==> r0 == nil && bks.available == old(bks.available) + 1 && bks.onlyHdrChanged(idx / bks.blksInSegm, (idx % bks.blksInSegm) / 8) && !bitset(bks.hb(idx / bks.blksInSegm, (idx % bks.blksInSegm) / 8), (idx % bks.blksInSegm) % 8) && forall(j2, 0, 8, j2 != (idx % bks.blksInSegm) % 8 ==> bitset(bks.hb(idx / bks.blksInSegm, (idx % bks.blksInSegm) / 8), j2) == old(bitset(bks.hb(idx / bks.blksInSegm, (idx % bks.blksInSegm) / 8), j2)))
+
+// exactly one bit set / its index
+//@ pred oneBit(b byte) = b == 1 || b == 2 || b == 4 || b == 8 || b == 16 || b == 32 || b == 64 || b == 128
+//@ spec log2(b byte) int = ite(b == 1, 0, ite(b == 2, 1, ite(b == 4, 2, ite(b == 8, 3, ite(b == 16, 4, ite(b == 32, 5, ite(b == 64, 6, 7)))))))
+
+// in store byte x exactly one bit changed, from 0 to 1 (x is evaluated by the caller, in the post-state)
+//@ pred (bks *Blocks) oneBitSetAt(x int) = oneBit(sbyte(bks.bts, x) ^ old(sbyte(bks.bts, x))) && old(sbyte(bks.bts, x)) & (sbyte(bks.bts, x) ^ old(sbyte(bks.bts, x))) == 0 && sbyte(bks.bts, x) & (sbyte(bks.bts, x) ^ old(sbyte(bks.bts, x))) != 0
+//@ spec func (bks *Blocks) changedBit(x int) int = log2(sbyte(bks.bts, x) ^ old(sbyte(bks.bts, x)))
+
+// ArrangeBlock: the index r0 = s*B + p*8 + j of a header bit that was clear is returned and that bit is set
+//@ func (bks *Blocks) ArrangeBlock() (int, error)
+//@   props C17
+//@   requires bks.wf() && 0 - (1<<30) <= bks.available && bks.available <= 1<<30
+//@   modifies bks.freeIdx, bks.available, bytesOf(bks.bts.sarr, bks.bts.soff, bks.bts.ssize)
+//@   ensures bks.wf() && bks.geomKept() && (r1 == nil || r1 == errors.ErrExhausted)
+//@   ensures r1 == nil ==> 0 <= r0 && r0 < bks.segments * bks.blksInSegm && bks.available == old(bks.available) - 1
+// success: exactly one store byte changed - the header byte at position X = freeIdx - and in it exactly one bit went from 0 to 1;
+// r0 is the index of that bit: segment X/SS, header byte X%SS, bit log2 of the changed bit
+//@   ensures r1 == nil ==> 0 <= bks.freeIdx && bks.freeIdx < bks.segments * bks.ss() && bks.freeIdx % bks.ss() < bks.blkSize && forall(x, 0, bks.bts.ssize, x != bks.freeIdx ==> sbyte(bks.bts, x) == old(sbyte(bks.bts, x)))
+//@   ensures r1 == nil ==> bks.oneBitSetAt(bks.freeIdx)
+//@   ensures r1 == nil ==> r0 == (bks.freeIdx / bks.ss()) * bks.blksInSegm + (bks.freeIdx % bks.ss()) * 8 + bks.changedBit(bks.freeIdx)
+// ErrExhausted exactly when nothing is free: every header byte is full, nothing changed
+//@   ensures r1 != nil ==> bks.storeKept() && bks.available == old(bks.available) && forall(x, 0, bks.segments * bks.ss(), x % bks.ss() < bks.blkSize ==> sbyte(bks.bts, x) == 255)
+//@   loop 1
+//@     invariant bks.wf() && bks.geomKept() && bks.storeKept() && bks.available == old(bks.available)
+//@     invariant 0 <= freeSegm && freeSegm <= bks.segments && freeSegm * bks.ss() <= bks.freeIdx && (freeSegm < bks.segments ==> bks.freeIdx < freeSegm * bks.ss() + bks.blkSize) && (freeSegm == bks.segments ==> bks.freeIdx == bks.segments * bks.ss())
+//@     decreases bks.segments - freeSegm
+//@   loop 2
+//@     invariant bks.geom() && bks.hint() && bks.geomKept() && bks.storeKept() && bks.available == old(bks.available)
+//@     invariant 0 <= freeSegm && freeSegm < bks.segments && 0 <= pos && pos <= bks.blkSize && bks.freeIdx == freeSegm * bks.ss() + pos
+//@     invariant arr(buf) == bks.bts.sarr && off(buf) == bks.bts.soff + freeSegm * bks.ss() && len(buf) == bks.blkSize
+//@     decreases bks.blkSize - pos
+//@   loop 3
+//@     unroll 8
+
+// ---- arithmetic lemmas of the geometry (B = 8*bs blocks per segment, segment = header block + B data blocks) ----
+
+// the index computed by ArrangeBlock (s*B + p*8 + j) is mapped back to (s, p, j) by the formulas FreeBlock uses
+//@ lemma func lemmaIndexMap(bs int, S int, s int, p int, j int) bool
+//@   props C17
+//@   requires 1 <= bs && bs <= 1<<27 && 1 <= S && S <= 1<<46 && 0 <= s && s < S && 0 <= p && p < bs && 0 <= j && j < 8
+//@   ensures 0 <= s * (8 * bs) + p * 8 + j && s * (8 * bs) + p * 8 + j < S * (8 * bs)
+//@   ensures (s * (8 * bs) + p * 8 + j) / (8 * bs) == s && ((s * (8 * bs) + p * 8 + j) % (8 * bs)) / 8 == p && ((s * (8 * bs) + p * 8 + j) % (8 * bs)) % 8 == j
+func lemmaIndexMap(bs int, S int, s int, p int, j int) bool { return true }
+
+// every index has such a decomposition (so distinct indices are distinct header bits)
+//@ lemma func lemmaIndexDecomp(bs int, S int, i int) bool
+//@   props C17
+//@   requires 1 <= bs && bs <= 1<<27 && 1 <= S && S <= 1<<46 && 0 <= i && i < S * (8 * bs)
+//@   ensures 0 <= i / (8 * bs) && i / (8 * bs) < S && 0 <= (i % (8 * bs)) / 8 && (i % (8 * bs)) / 8 < bs && i == (i / (8 * bs)) * (8 * bs) + ((i % (8 * bs)) / 8) * 8 + (i % (8 * bs)) % 8
+func lemmaIndexDecomp(bs int, S int, i int) bool { return true }
+
+// the data blocks of two different indices do not overlap and lie inside the segments
+//@ lemma func lemmaBlocksDisjoint(bs int, S int, i int, j int) bool
+//@   props C17
+//@   requires 1 <= bs && bs <= 1<<27 && 1 <= S && S <= 1<<46 && 0 <= i && i < j && j < S * (8 * bs)
+//@   ensures (i + i / (8 * bs) + 1) * bs + bs <= (j + j / (8 * bs) + 1) * bs && (j + j / (8 * bs) + 1) * bs + bs <= S * ((8 * bs + 1) * bs) && 0 <= (i + i / (8 * bs) + 1) * bs
+func lemmaBlocksDisjoint(bs int, S int, i int, j int) bool { return true }
+
+// a data block never overlaps a header block (the allocator's bookkeeping area)
+//@ lemma func lemmaBlockNotHeader(bs int, S int, i int, s int) bool
+//@   props C17
+//@   requires 1 <= bs && bs <= 1<<27 && 1 <= S && S <= 1<<46 && 0 <= i && i < S * (8 * bs) && 0 <= s && s < S
+//@   ensures (i + i / (8 * bs) + 1) * bs + bs <= s * ((8 * bs + 1) * bs) || s * ((8 * bs + 1) * bs) + bs <= (i + i / (8 * bs) + 1) * bs
+func lemmaBlockNotHeader(bs int, S int, i int, s int) bool { return true }
